@@ -17,11 +17,15 @@ package unixsocket
 //@   assigns FD.closed
 //@   ensures err != nil ==> len(msg.Fds) == 0
 //@   ensures err != nil ==> all_arrived_closed() || (forall j int :: 0 <= j && j < len(msgs) ==> !(msgs[j].Header.Level == 1 && msgs[j].Header.Type == 1))
-//@   ensures err == nil ==> (len(msg.Fds) == S.nrights && forall k int :: 0 <= k && k < S.nrights ==> msg.Fds[k] == S.right[k])
+//@   ensures err == nil ==> len(msg.Fds) == S.nrights
+//@   ensures err == nil ==> forall k int :: 0 <= k && k < S.nrights ==> msg.Fds[k] == S.right[k]
 //@   ensures err == nil ==> forall d int :: FD.closed[d] == old(FD.closed[d])
+//@   requires S.nrights >= 0
 //@   requires S.nrights == 0 ==> forall j int :: 0 <= j && j < len(msgs) ==> !(msgs[j].Header.Level == 1 && msgs[j].Header.Type == 1)
 //@   requires S.nrights > 0 ==> exists j int :: 0 <= j && j < len(msgs) && msgs[j].Header.Level == 1 && msgs[j].Header.Type == 1
 //@   loop 0: invariant -1 <= rangeindex && rangeindex < len(msgs) && err == nil && forall d int :: FD.closed[d] == old(FD.closed[d])
+//@   loop 0: invariant S.nrights == 0 ==> forall j int :: 0 <= j && j < len(msgs) ==> !(msgs[j].Header.Level == 1 && msgs[j].Header.Type == 1)
+//@   loop 0: invariant S.nrights > 0 ==> exists j int :: 0 <= j && j < len(msgs) && msgs[j].Header.Level == 1 && msgs[j].Header.Type == 1
 //@   loop 0: invariant (exists j int :: 0 <= j && j <= rangeindex && msgs[j].Header.Level == 1 && msgs[j].Header.Type == 1) ==> (len(msg.Fds) == S.nrights && forall k int :: 0 <= k && k < S.nrights ==> msg.Fds[k] == S.right[k])
 //@   loop 0: invariant !(exists j int :: 0 <= j && j <= rangeindex && msgs[j].Header.Level == 1 && msgs[j].Header.Type == 1) ==> len(msg.Fds) == 0
 
@@ -34,6 +38,20 @@ package unixsocket
 //@   loop 0: invariant -1 <= rangeindex && rangeindex < len(old(msg.Fds)) && msg.Fds == old(msg.Fds)
 //@   loop 0: invariant forall k int :: 0 <= k && k <= rangeindex ==> FD.closed[old(msg.Fds)[k]]
 //@   loop 0: invariant forall d int :: old(FD.closed[d]) ==> FD.closed[d]
+
+// every descriptor that arrived with the message is closed (rejected message)
+//@ func pkg/unixsocket.closeReceivedFds props C19 C12
+//@   arith int
+//@   assigns FD.closed
+//@   ensures all_arrived_closed()
+//@   ensures forall d int :: old(FD.closed[d]) ==> FD.closed[d]
+//@   loop 0: invariant -1 <= rangeindex && rangeindex < len(msgs)
+//@   loop 0: invariant S.nrights > 0 ==> exists j int :: 0 <= j && j < len(msgs) && msgs[j].Header.Level == 1 && msgs[j].Header.Type == 1
+//@   loop 0: invariant forall d int :: old(FD.closed[d]) ==> FD.closed[d]
+//@   loop 0: invariant (exists j int :: 0 <= j && j <= rangeindex && msgs[j].Header.Level == 1 && msgs[j].Header.Type == 1) ==> all_arrived_closed()
+//@   loop 1: invariant -1 <= rangeindex && rangeindex < len(fds) && len(fds) == S.nrights && (forall k int :: 0 <= k && k < S.nrights ==> fds[k] == S.right[k])
+//@   loop 1: invariant forall d int :: old(FD.closed[d]) ==> FD.closed[d]
+//@   loop 1: invariant forall k int :: 0 <= k && k <= rangeindex ==> FD.closed[S.right[k]]
 
 //@ func pkg/unixsocket.(*Socket).RecvMsg props C19 C12
 //@   arith int
